@@ -27,8 +27,17 @@ AllFin(X) == \A j \in DOMAIN X : \A i \in DOMAIN X[j] : IsFin(X[j][i]) /\ AbsN(X
 \* floor(num * S / den) without leaving 32 bits (den < 2147)
 Units(num, den) == (num \div den) * S + ((num % den) * S) \div den
 
+\* documented options carried by an event:  ep/eq = the lower bound epsilon (0/1 = the solver's default: 0 for hals,
+\* 1e-8 for fista);  nzr = hals_nnls(nonzero_rows=True) "the lines of the V matrix can't be zero"
+OptionsOK(e) ==
+    /\ e.nzr \in BOOLEAN /\ (e.nzr => e.solver = "hals")
+    /\ <<e.ep, e.eq>> \in {<<0, 1>>} \cup EpsSet
+    /\ (e.ep > 0 => e.solver \in {"hals", "fista"})
+
 ExactInDomain(e) ==
     /\ e.solver \in Solvers
+    /\ OptionsOK(e)
+    /\ (e.ep > 0 => e.G \notin ExtraG2)
     /\ <<e.p1, e.p2, e.q>> \in Penalties
     /\ (e.solver \in {"active_set", "admm"} => e.p1 = 0 /\ e.p2 = 0)
     /\ ValidGram(e.G)
@@ -38,7 +47,7 @@ ExactInDomain(e) ==
 ExactClose(e) ==
     \A j \in 1..Len(e.B) :
         LET pr == [G |-> e.G, b |-> e.B[j], p1 |-> e.p1, p2 |-> e.p2, q |-> e.q] IN
-        \A x \in {IF Constrained(e) THEN Solve(pr) ELSE SolveFree(pr)} :
+        \A x \in {IF ~Constrained(e) THEN SolveFree(pr) ELSE IF e.ep > 0 THEN SolveLB(pr, e.ep, e.eq) ELSE Solve(pr)} :
             /\ x.den > 0 /\ x.den < 2147
             /\ \A i \in 1..Len(e.G) : AbsN(e.x[j][i] - Units(x.num[i], x.den)) <= SolTol + 1
 
@@ -47,12 +56,16 @@ ExactVerdict(e) ==
     ELSE IF e.raised THEN "Raised"
     ELSE IF e.size # Len(e.B) * Len(e.G) \/ ~IsCols(e.x, Len(e.B), Len(e.G)) THEN "Shape"
     ELSE IF ~AllFin(e.x) THEN "Finite"
-    ELSE IF Constrained(e) /\ e.nneg # 0 THEN "NonNeg"
+    \* e.nlow = number of returned entries below the bound (0, or epsilon when given), counted on the floats
+    ELSE IF Constrained(e) /\ e.nlow # 0 THEN (IF e.ep > 0 THEN "Floor" ELSE "NonNeg")
     ELSE IF ~ExactClose(e) THEN "Close"
+    \* nonzero_rows=True: no row of the returned V is entirely zero (unless the whole solution is zero)
+    ELSE IF e.nzr /\ e.zero_rows # 0 /\ (\E j \in 1..Len(e.B) : \E i \in 1..Len(e.G) : e.x[j][i] > SolTol + 1) THEN "NonzeroRows"
     ELSE "ok"
 
 KktInDomain(e) ==
     /\ e.solver \in Solvers
+    /\ OptionsOK(e) /\ e.ep = 0
     /\ e.n \in 4..8 /\ e.k \in 1..5
     /\ <<e.p1, e.p2, e.q>> \in Penalties
     /\ (e.solver \in {"active_set", "admm"} => e.p1 = 0 /\ e.p2 = 0)
@@ -63,12 +76,13 @@ KktVerdict(e) ==
     ELSE IF e.raised THEN "Raised"
     ELSE IF e.size # e.k * e.n \/ ~IsCols(e.x, e.k, e.n) \/ ~IsCols(e.g, e.k, e.n) THEN "Shape"
     ELSE IF ~AllFin(e.x) \/ ~AllFin(e.g) THEN "Finite"
-    ELSE IF Constrained(e) /\ e.nneg # 0 THEN "NonNeg"
+    ELSE IF Constrained(e) /\ e.nlow # 0 THEN "NonNeg"
     \* unconstrained: stationarity everywhere
     ELSE IF ~Constrained(e) /\ (\E j \in 1..e.k : \E i \in 1..e.n : AbsN(e.g[j][i]) > KktTol) THEN "Stationary"
     \* constrained: dual feasibility at the bound, stationarity (hence complementarity) off the bound
     ELSE IF Constrained(e) /\ (\E j \in 1..e.k : \E i \in 1..e.n : e.x[j][i] <= ZeroTol /\ e.g[j][i] < -KktTol) THEN "DualFeasible"
     ELSE IF Constrained(e) /\ (\E j \in 1..e.k : \E i \in 1..e.n : e.x[j][i] > ZeroTol /\ AbsN(e.g[j][i]) > KktTol) THEN "Stationary"
+    ELSE IF e.nzr /\ e.zero_rows # 0 /\ (\E j \in 1..e.k : \E i \in 1..e.n : e.x[j][i] > ZeroTol) THEN "NonzeroRows"
     ELSE "ok"
 
 Verdict(e) == IF e.kind = "exact" THEN ExactVerdict(e)
